@@ -377,6 +377,8 @@ impl Debugee {
         let (bt_frame_num, frame) = backtrace
             .iter()
             .enumerate()
+            // recursive activations share the instruction pointer
+            .skip(ecx.frame_num() as usize)
             .find(|(_, frame)| frame.ip == ecx.location().pc)
             .expect("frame must exists");
         let return_addr = backtrace.get(bt_frame_num + 1).map(|f| f.ip);
